@@ -15,7 +15,7 @@ set_option autoImplicit false
 set_option linter.unusedSimpArgs false
 set_option linter.unusedSectionVars false
 set_option linter.unusedVariables false
-open Py
+open Py PartLemmas
 
 
 namespace Contracts.Partition
@@ -897,3 +897,133 @@ theorem refine_equitable (env : DepEnv) (hs : env.SetLawful) {m : Graph} {c : Na
         sortedRev ((r.nbrs a).map (attrV r "partition")) = sortedRev ((r.nbrs b).map (attrV r "partition")) := by
   obtain ⟨h1, h2⟩ := refine_ok env hs hw hd hc fuel hf
   exact ⟨_, h1, h2.equitable⟩
+
+/-! ### label independence through the iteration -/
+
+theorem iso_numClasses {g h : Graph} {π : Int → Int} (hiso : Graph.IsIsoOn "partition" π g h) :
+    numClasses h = numClasses g := by
+  unfold numClasses
+  have hp : (h.nodeList.map (attrV h "partition")).Perm (g.nodeList.map (attrV g "partition")) := by
+    refine (hiso.nodes.map _).trans ?_
+    rw [List.map_map, List.map_congr_left]
+    intro a ha
+    exact iso_attrV hiso ha
+  exact (hp.dedup).length_eq
+
+theorem refineSpec_iso {π : Int → Int} : ∀ (f : Nat) (g h : Graph), g.WF → h.WF →
+    Graph.IsIsoOn "partition" π g h → Graph.IsIsoOn "partition" π (refineSpec f g) (refineSpec f h) := by
+  intro f
+  induction f with
+  | zero => intro g h _ _ hiso; exact hiso
+  | succ f ih =>
+    intro g h hg hh hiso
+    have sg := partGraph_spec hg "partition"
+    have sh := partGraph_spec hh "partition"
+    have hiso' : Graph.IsIsoOn "partition" π (refineStep g) (refineStep h) := partSpec_iso hg hiso sg sh
+    simp only [refineSpec]
+    rw [iso_numClasses hiso, iso_numClasses hiso']
+    by_cases hstop : numClasses (refineStep g) = numClasses g
+    · simp only [hstop, if_true]; exact hiso'
+    · simp only [hstop, if_false]; exact ih _ _ sg.wf sh.wf hiso'
+
+/-- C13 through the refinement loop: if `h` is `g` renumbered by `π` / reordered, the refined graphs
+correspond under `π`, in particular atom `π a` of `h` ends up in the same class as atom `a` of `g`. -/
+theorem refine_label_independent (env₁ env₂ : DepEnv) (hs₁ : env₁.SetLawful) (hs₂ : env₂.SetLawful)
+    {g h : Graph} {π : Int → Int} {c c' : Nat} (hg : g.WF) (hh : h.WF) (dg : Dense g c) (dh : Dense h c')
+    (hc : 1 ≤ c) (hiso : Graph.IsIsoOn "partition" π g h)
+    (fuel₁ fuel₂ : Nat) (hf₁ : fuel₁ ≥ g.nodeList.length + 1) (hf₂ : fuel₂ ≥ h.nodeList.length + 1) :
+    ∃ rg rh, Tucan.canonicalization.refine_partitions env₁ fuel₁ g = .ok [rg] ∧
+      Tucan.canonicalization.refine_partitions env₂ fuel₂ h = .ok [rh] ∧
+      Graph.IsIsoOn "partition" π rg rh ∧
+      ∀ a ∈ g.nodeList, rh.attr (π a) "partition" = rg.attr a "partition" := by
+  have hcc : c' = c := by rw [← dh.numClasses, ← dg.numClasses]; exact iso_numClasses hiso
+  subst hcc
+  have hlen : h.nodeList.length = g.nodeList.length := by
+    rw [hiso.nodes.length_eq, List.length_map]
+  obtain ⟨e1, s1⟩ := refine_ok env₁ hs₁ hg dg hc fuel₁ hf₁
+  obtain ⟨e2, s2⟩ := refine_ok env₂ hs₂ hh dh hc fuel₂ hf₂
+  have hiso' : Graph.IsIsoOn "partition" π (refineResult g) (refineResult h) := by
+    unfold refineResult; rw [hlen]; exact refineSpec_iso _ g h hg hh hiso
+  refine ⟨_, _, e1, e2, hiso', ?_⟩
+  intro a ha
+  rw [← s1.nodes] at ha
+  exact hiso'.attr a ha
+
+/-! ### the way `canonicalize_molecule` uses the two functions -/
+
+/-- the output of `partition_molecule_by_attribute` on a non-empty molecule meets the precondition
+of `refine_partitions` -/
+theorem PartSpec.refine_pre {m r : Graph} {k : String} (s : PartSpec m k r) (hne : m.nodeList ≠ []) :
+    r.WF ∧ Dense r (seqs m k).dedup.length ∧ 1 ≤ (seqs m k).dedup.length := by
+  refine ⟨s.wf, s.dense, ?_⟩
+  obtain ⟨a, ha⟩ := List.exists_mem_of_ne_nil _ hne
+  have : seq m k a ∈ (seqs m k).dedup := List.mem_dedup.2 (mem_seqs ha)
+  exact List.length_pos_of_mem this
+
+/-- C13 for the whole partitioning phase of `canonicalize_molecule` (partition by `k`, then refine):
+total correctness, and the final class of an atom does not depend on numbering or iteration orders. -/
+theorem partition_refine_label_independent (env₁ env₂ : DepEnv) (hs₁ : env₁.SetLawful) (hs₂ : env₂.SetLawful)
+    {g h : Graph} {k : String} {π : Int → Int} (hg : g.WF) (hh : h.WF) (cg : Carries g k) (ch : Carries h k)
+    (hne : g.nodeList ≠ []) (hiso : Graph.IsIsoOn k π g h)
+    (fuel₁ fuel₂ : Nat) (hf₁ : fuel₁ ≥ g.nodeList.length + 1) (hf₂ : fuel₂ ≥ h.nodeList.length + 1) :
+    ∃ pg ph rg rh,
+      Tucan.canonicalization.partition_molecule_by_attribute env₁ g k = .ok pg ∧
+      Tucan.canonicalization.partition_molecule_by_attribute env₂ h k = .ok ph ∧
+      Tucan.canonicalization.refine_partitions env₁ fuel₁ pg = .ok [rg] ∧
+      Tucan.canonicalization.refine_partitions env₂ fuel₂ ph = .ok [rh] ∧
+      RefineSpec pg rg ∧ RefineSpec ph rh ∧
+      ∀ a ∈ g.nodeList, rh.attr (π a) "partition" = rg.attr a "partition" := by
+  obtain ⟨pg, e1, sg⟩ := partition_ok env₁ hs₁ hg k cg
+  obtain ⟨ph, e2, sh⟩ := partition_ok env₂ hs₂ hh k ch
+  have hne' : h.nodeList ≠ [] := by
+    intro hnil
+    have := hiso.nodes.length_eq
+    rw [hnil, List.length_map] at this
+    exact hne (List.eq_nil_of_length_eq_zero this.symm)
+  obtain ⟨w1, d1, p1⟩ := sg.refine_pre hne
+  obtain ⟨w2, d2, p2⟩ := sh.refine_pre hne'
+  have hiso' := partSpec_iso hg hiso sg sh
+  obtain ⟨rg, rh, r1, r2, _, r4⟩ := refine_label_independent env₁ env₂ hs₁ hs₂ w1 w2 d1 d2 p1 hiso'
+    fuel₁ fuel₂ (by rw [sg.nodes]; exact hf₁) (by rw [sh.nodes]; exact hf₂)
+  have q1 := refine_ok env₁ hs₁ w1 d1 p1 fuel₁ (by rw [sg.nodes]; exact hf₁)
+  have q2 := refine_ok env₂ hs₂ w2 d2 p2 fuel₂ (by rw [sh.nodes]; exact hf₂)
+  have er1 : rg = refineResult pg := by
+    have := r1.symm.trans q1.1; simpa using this
+  have er2 : rh = refineResult ph := by
+    have := r2.symm.trans q2.1; simpa using this
+  refine ⟨pg, ph, rg, rh, e1, e2, r1, r2, er1 ▸ q1.2, er2 ▸ q2.2, ?_⟩
+  intro a ha
+  rw [← sg.nodes] at ha
+  exact r4 a ha
+
+/-- `refine_partitions` rejects the empty molecule with `ValueError` (raised by `max` of an empty
+sequence in `get_number_of_partitions`) -/
+theorem refine_empty (env : DepEnv) (hs : env.SetLawful) {m : Graph} (hw : m.WF) (hnil : m.nodeList = [])
+    (fuel : Nat) :
+    Tucan.canonicalization.refine_partitions env (fuel + 1) m = .error Err.value := by
+  have hc : Carries m "partition" := by intro a ha; rw [hnil] at ha; cases ha
+  have s := partGraph_spec hw "partition"
+  have hpv : partValues (partGraph m "partition") = [] := by
+    have h1 : (partGraph m "partition").nodeList = [] := s.nodes.trans hnil
+    unfold Graph.nodeList Dict.keys at h1
+    unfold partValues
+    rw [List.map_eq_nil_iff.1 h1]; rfl
+  simp only [Tucan.canonicalization.refine_partitions, List.range_succ_eq_map, List.forIn_cons,
+    partition_eq env hs hw "partition" hc, Py.ok_bind,
+    get_number_of_partitions_empty env _ hpv, Py.error_bind]
+
+/-! ## axioms -/
+#print axioms attribute_sequence_ok
+#print axioms attribute_sequence_perm
+#print axioms partition_ok
+#print axioms partition_label_independent
+#print axioms partition_automorphism
+#print axioms partition_refines
+#print axioms get_number_of_partitions_ok
+#print axioms refine_ok
+#print axioms refine_equitable
+#print axioms refine_label_independent
+#print axioms partition_refine_label_independent
+#print axioms refine_empty
+
+end Contracts.Partition
